@@ -407,9 +407,9 @@ func main() {
 				codec, term, ok = coqCase2(x)
 			}
 			if ok && outcome == "ok" {
-				limit := run.N(30, 200)
+				limit := run.N(30, 100)
 				if q, ok := quickLimit[codec]; ok {
-					limit = run.N(q, 5*q)
+					limit = run.N(q, 3*q)
 				}
 				if modelled[codec] < limit && len(wire) < 40000 {
 					modelled[codec]++
@@ -420,7 +420,7 @@ func main() {
 		}
 	}
 	addModelCase = func(codec string, wire []byte, term string) {
-		if modelled[codec] < run.N(30, 200) {
+		if modelled[codec] < run.N(30, 100) {
 			modelled[codec]++
 			sh.Add(fmt.Sprintf("Case %d %s %s %s", id, codec, lib.CoqBytes(wire), term))
 			st.Hist["model:"+codec]++
